@@ -56,11 +56,17 @@ func (f *failingReader) Read(p []byte) (int, error) {
 type Op struct {
 	Kind int
 	Slot int
+	// Drop (Garble): the caller keeps the tables (R, wires, rows) and lets go of the *Garbled it
+	// got - it never releases this garbling, which therefore stays valid for good
+	Drop bool
 }
 
 func (o Op) String() string {
 	if o.Kind == Compute {
 		return "Compute"
+	}
+	if o.Drop {
+		return fmt.Sprintf("%s(%d, handle dropped)", kindNames[o.Kind], o.Slot)
 	}
 	return fmt.Sprintf("%s(%d)", kindNames[o.Kind], o.Slot)
 }
@@ -96,6 +102,9 @@ func DrawTier(t *rt.Tape, tier string) *Plan {
 		for j := 0; j < n; j++ {
 			kind := []int{Garble, Garble, Garble, Eval, Eval, Compute, Release, Release, ReleaseAgain, GarbleFail, GarbleBadKey, Garble}[t.Choose(rt.SGen, 12)]
 			o := Op{Kind: kind, Slot: t.Choose(rt.SGen, 2)}
+			if kind == Garble && t.Choose(rt.SGen, 5) == 0 {
+				o.Drop = true
+			}
 			if kind == GarbleFail {
 				// fail after 0, 8, 16, ... bytes: before R, inside R, inside the k-th input label
 				o.Slot = t.Choose(rt.SGen, 2*(2+p.Circ.Inputs.Size()))
@@ -153,6 +162,7 @@ type held struct {
 	key      []byte
 	sum      string
 	released bool
+	kept     bool // only the tables are kept (Op.Drop): never released
 }
 
 // Checksum covers R, every wire label pair and every table row.
@@ -199,6 +209,19 @@ func Exec(p *Plan, circ *circuit.Circuit, task int, rnd io.Reader) *Result {
 		outSize += int(a.Type.Bits)
 	}
 	var keyBuf []byte
+	var keptForGood []*held
+	defer func() {
+		for _, h := range slots {
+			if h != nil && h.kept && !h.released {
+				keptForGood = append(keptForGood, h)
+			}
+		}
+		for _, h := range keptForGood {
+			if s := Checksum(h.g); s != h.sum && res.Violation == "" {
+				fail("garbling-changed-while-held", "a garbling that was never released (the caller kept its tables and dropped the handle) changed (checksum %s -> %s)", h.sum, s)
+			}
+		}
+	}()
 	for idx, op := range p.Tasks[task] {
 		if res.Violation != "" {
 			break
@@ -211,7 +234,11 @@ func Exec(p *Plan, circ *circuit.Circuit, task int, rnd io.Reader) *Result {
 					fail("garbling-changed-while-held", "op %d: the garbling in slot %d changed before it was released (checksum %s -> %s)", idx, op.Slot, h.sum, s)
 					break
 				}
-				h.g.Release()
+				if h.kept {
+					keptForGood = append(keptForGood, h) // checked again at the end of the list
+				} else {
+					h.g.Release()
+				}
 				h.released = true
 			}
 			key := make([]byte, p.KeyLen[task])
@@ -237,7 +264,11 @@ func Exec(p *Plan, circ *circuit.Circuit, task int, rnd io.Reader) *Result {
 			}
 			sum := Checksum(g)
 			res.GarbleSums = append(res.GarbleSums, sum)
-			slots[op.Slot] = &held{g: g, key: key, sum: sum}
+			if op.Drop {
+				// keep the tables, drop the handle
+				g = &circuit.Garbled{R: g.R, Wires: g.Wires, Gates: g.Gates}
+			}
+			slots[op.Slot] = &held{g: g, key: key, sum: sum, kept: op.Drop}
 		case Eval:
 			h := slots[op.Slot]
 			if h == nil || h.released {
@@ -288,11 +319,14 @@ func Exec(p *Plan, circ *circuit.Circuit, task int, rnd io.Reader) *Result {
 				fail("garbling-changed-while-held", "op %d: the garbling in slot %d changed before it was released (checksum %s -> %s)", idx, op.Slot, h.sum, s)
 				break
 			}
+			if h.kept {
+				continue // never released
+			}
 			h.g.Release()
 			h.released = true
 		case ReleaseAgain:
 			h := slots[op.Slot]
-			if h == nil || !h.released {
+			if h == nil || !h.released || h.kept {
 				continue
 			}
 			h.g.Release() // releasing twice must be harmless
